@@ -215,8 +215,8 @@ fn part1(cfg: &P1Cfg, track: bool) -> Out1 {
             problems.push((format!("first-put-result/{}/{}", REL[cfg.rel], CAS[cfg.cas]), format!("first put returned {r1} although every storer acknowledges")));
         }
     }
-    if w.any_actor_panicked().is_some() {
-        problems.push(("actor-died".into(), "actor thread died".into()));
+    if let Some(dead) = w.any_actor_panicked() {
+        problems.push(("actor-died".into(), format!("actor thread died: node {dead} {}", w.death_reason(dead))));
     }
     Out1 { r1, r2, in_flight, events, steps: w.steps, digests: w.state_digests.iter().copied().collect(), problems }
 }
@@ -326,8 +326,8 @@ fn part2(kind: usize, replies: &[u8], order: usize) -> (String, u64, Vec<(String
             problems.push((format!("ack-truth/{}", KINDS[kind]), format!("{} with {split} returned {r}", KINDS[kind])));
         }
     }
-    if w.any_actor_panicked().is_some() {
-        problems.push(("actor-died".into(), "actor thread died".into()));
+    if let Some(dead) = w.any_actor_panicked() {
+        problems.push(("actor-died".into(), format!("actor thread died: node {dead} {}", w.death_reason(dead))));
     }
     (r, w.steps, problems)
 }
